@@ -902,7 +902,9 @@ pub fn audit_client(w: &World, c: usize) -> Result<Audit, (String, String)> {
                 }
                 503 => {
                     a.n503 += 1;
-                    if raw != SERVER_FULL {
+                    // the fixed message: `Connection: close` and the 40-byte JSON body
+                    let body40: &[u8] = &SERVER_FULL[SERVER_FULL.len() - 40..];
+                    if r.header("Connection") != Some("close") || r.header("Content-Length") != Some("40") || r.body != body40 {
                         return Err(("bad-503".into(), format!("client {} received a 503 that is not the fixed message: \"{}\"", c, esc(raw))));
                     }
                 }
